@@ -418,3 +418,56 @@ func ZZ_C07_member_calls() {
 	fits := !spread && (c.arity == n || (c.arity == -1 && n >= 1))
 	zzCheckTrace(id, n, j, err != nil, fits)
 }
+
+// ZZ_C07_assignment_targets: the index operands of an assignment target are
+// operands of an index expression like any other: evaluated exactly once, the
+// ones of one target left to right.  (The order between the right-hand side and
+// the target's operands is not asserted.)
+func ZZ_C07_assignment_targets() {
+	e := zzOrderEnv()
+	e.Define("lst", []interface{}{int64(0), int64(1), int64(2)})
+	e.Define("nest", []interface{}{[]interface{}{int64(5)}, []interface{}{int64(6), int64(7)}})
+	e.Define("m", map[interface{}]interface{}{"k": int64(1)})
+	e.Define("mm", map[interface{}]interface{}{int64(0): map[interface{}]interface{}{}})
+	e.Define("mnest", map[interface{}]interface{}{int64(0): []interface{}{int64(5)}})
+	e.Define("i0", func(tag int64) int64 { zz.Probe(int(tag)); return 0 })
+	e.Define("i1", func(tag int64) int64 { zz.Probe(int(tag)); return 1 })
+	forms := []struct{ name, src string }{
+		{"slice-element", "lst[i1(1)] = p(9)"},
+		{"slice-append-at-len", "lst[p(3)] = p(9)"},
+		{"nested-slice-element", "nest[i1(1)][i0(2)] = p(9)"},
+		{"nested-slice-append-at-len", "nest[i0(1)][i1(2)] = p(9)"},
+		{"map-entry", "m[p(1)] = p(9)"},
+		{"nested-map-entry", "mm[i0(1)][p(2)] = p(9)"},
+		{"slice-in-map-append-at-len", "mnest[i0(1)][i1(2)] = p(9)"},
+		{"two-targets", "lst[i0(1)], lst[i1(2)] = p(8), p(9)"},
+		{"member-of-element", "mm[i0(1)].x = p(9)"},
+		{"let-map-item", "v, ok = m[p(1)]"},
+	}
+	f := forms[zz.Choose(len(forms))]
+	zz.ResetTrace()
+	_, err := Execute(e, &Options{Debug: false}, f.src)
+	zz.Assertf(err == nil, "C07.assignment-target/no-error/"+f.name, f.src)
+	// every tag at most once; the target tags (< 8) in increasing order
+	tr := zz.Trace()
+	seen := map[int]int{}
+	last := 0
+	inc := true
+	for _, t := range tr {
+		seen[t]++
+		if t < 8 {
+			if t <= last {
+				inc = false
+			}
+			last = t
+		}
+	}
+	once := true
+	for _, n := range seen {
+		if n != 1 {
+			once = false
+		}
+	}
+	zz.Assertf(once, "C07.assignment-target/index-operands-evaluated-once/"+f.name, f.src)
+	zz.Assertf(inc, "C07.assignment-target/index-operands-left-to-right/"+f.name, f.src)
+}
